@@ -5,7 +5,7 @@ root = os.path.dirname(os.path.dirname(os.path.abspath(__file__)))
 rows = []
 for p in [os.path.join(root, 'known_findings.json')] + sorted(glob.glob(os.path.join(root, 'checks', '*', 'known_findings.json'))):
     for f in json.load(open(p))['findings']:
-        rows.append((f['property'], f['id'], f['status'], f.get('commit', ''), f['what'].replace('|', '/').replace('\n', ' '), os.path.relpath(p, root)))
+        rows.append((f['property'], f['id'], f['status'], f.get('commit', ''), f['what'].replace('|', '/').replace('\n', ' '), os.path.relpath(p, root), f.get('why_not_repaired', '').replace('|', '/')))
 rows.sort()
 fixed = [r for r in rows if r[2] == 'fixed']
 known = [r for r in rows if r[2] != 'fixed']
@@ -14,7 +14,7 @@ print('| prop | id | commit | what failed |\n|---|---|---|---|')
 for r in fixed:
     print('| %s | %s | %s | %s |' % (r[0], r[1], r[3], r[4][:330]))
 print('\n### Recorded as known findings (not repaired)\n')
-print('| prop | id | what fails |\n|---|---|---|')
+print('| prop | id | what fails | why it was not repaired |\n|---|---|---|---|')
 for r in known:
-    print('| %s | %s | %s |' % (r[0], r[1], r[4][:330]))
+    print('| %s | %s | %s | %s |' % (r[0], r[1], r[4][:330], r[6] or '(repair being attempted)'))
 print('\n%d repaired, %d known' % (len(fixed), len(known)))
